@@ -77,10 +77,14 @@ EXTENDED_COMMUNITY_HEX_LENGTH = 18  # 0x followed by the sixteen hexadecimal dig
 
 def prefix(tokeniser: 'Tokeniser') -> IPRange:
     ip = tokeniser()
-    try:
-        ip, mask_str = ip.split('/')
+    if '/' in ip:
+        # a length which is not a number ('10.0.0.0/2x', '10.0.0.0/') is an error: the 'except' below is for an
+        # address given without any length and used to turn those into a /32 (a /128) which was then announced
+        ip, mask_str = ip.split('/', 1)
+        if not mask_str.isdigit():
+            raise ValueError(f"'{ip}/{mask_str}' is not a valid network\n  The prefix length must be a number")
         mask = int(mask_str)
-    except ValueError:
+    else:
         mask = 32
         if ':' in ip:
             mask = 128
